@@ -206,7 +206,13 @@ def main():
             c = rng.choice(pool)
             par = rng.choice([2, 2, 3, 4])
         tw = rng.choice([0.02, 0.1, 0.5])
-        sim, log = walk_sim(c, par, simmp.RandomChooser(rng.randrange(2 ** 31), timeout_weight=tw, feeder_weight=rng.choice([1.0, 0.2])))
+        if si % 4 == 1:
+            # priority-based schedules: a process stays suspended at one point while the others run long stretches
+            tw = "pct"
+            chooser = simmp.PCTChooser(rng.randrange(2 ** 31), depth=rng.choice([1, 2, 3, 4]), timeout_prob=rng.choice([0.3, 0.7]))
+        else:
+            chooser = simmp.RandomChooser(rng.randrange(2 ** 31), timeout_weight=tw, feeder_weight=rng.choice([1.0, 0.2]))
+        sim, log = walk_sim(c, par, chooser)
         what = sim.outcome + (f": {type(sim.main.exc).__name__}: {sim.main.exc}" if sim.main.exc is not None else "")
         bad = judge_log(c, log, sim.outcome == "ok", what)
         if not bad and sim.alive_at_return:
